@@ -6,7 +6,7 @@
 From Coq Require Import List Arith Bool Lia Reals Lra Sorted Permutation.
 From ET Require Import Model.Scalar Model.Sparse Proofs.SparseBase Proofs.MergeProofs Proofs.VectorProofs.
 Import ListNotations.
-Open Scope R_scope.
+Local Open Scope R_scope.
 
 Definition Reqb (x y : R) : bool := if Req_EM_T x y then true else false.
 Definition Rltb (x y : R) : bool := if Rlt_dec x y then true else false.
